@@ -148,6 +148,12 @@ def create_header(
         # TODO: This behaviour does not match the docstring.
         reuse_info = existing_spdx | reuse_info
         reuse_info = reuse_info.copy(copyright_lines=spdx_copyrights)
+    elif merge_copyrights:
+        # Merge the requested lines among themselves as well, so that the
+        # header does not change when the same command is run again.
+        reuse_info = reuse_info.copy(
+            copyright_lines=merge_copyright_lines(reuse_info.copyright_lines)
+        )
 
     new_header += _create_new_header(
         reuse_info,
